@@ -79,7 +79,7 @@ fn generate(rng: &mut Rng) -> C14Sc {
         Some((_, idx)) => Some(crate::net::SECRET_SOURCES[idx].as_bytes().to_vec()),
         None => secret,
     };
-    let timeout_s = *rng.pick(&[1u64, 5, 30, 120, 600, 0]);
+    let timeout_s = *rng.pick(&[1u64, 5, 30, 120, 600, 0, 32, 48, 64]);
     // with PROXY protocol the client is admitted once its header is complete; the header itself has to
     // arrive within the timeout
     let proxy = if rng.chance(1, 4) { Some((true, true)) } else { None };
@@ -275,6 +275,21 @@ pub fn check(sc: &C14Sc, out: &NetOutcome, rep: &mut RunReport) {
         }
         if cfg.timeout_ns == 0 {
             continue; // a zero timeout leaves no time to serve anything: only the deadline rule applies
+        }
+        // a client that fell silent in the configuration phase: if the connection lives to the instant the next Keep Alive
+        // is due - also when that instant is the deadline itself - it is told so (timeout Disconnect), not just cut off
+        if let Role::StopsAfter { .. } = role
+            && let Some(ka) = c.view.packets.iter().rev().find(|p| p.kind == "KeepAlive")
+            && !c.view.sent.iter().any(|s| s.t_ns >= ka.t_ns)
+            && c.closed_ns.is_some_and(|t| t >= ka.t_ns + secs(16))
+            && ka.t_ns + secs(16) <= acc + cfg.timeout_ns
+            && c.view.first("Transfer").is_none()
+            && c.view.first("Disconnect").is_none()
+        {
+            rep.violate(
+                "silent_client_is_told_before_the_deadline_closes",
+                format!("client {i} ({role:?}) left the Keep Alive of {} ns unanswered, the connection lived until {:?} (admitted {acc}, timeout {} ns), yet no timeout Disconnect was sent: packets {:?}", ka.t_ns, c.closed_ns, cfg.timeout_ns, c.view.kinds()),
+            );
         }
         match role {
             Role::FrameLen { len } => {
